@@ -417,7 +417,7 @@ impl Image {
 // ------------------------------------------------------------------------------------------
 // spec syntax
 
-fn words_hex(ws: &[i32]) -> String {
+pub fn words_hex(ws: &[i32]) -> String {
     let mut b = vec![];
     for w in ws {
         b.extend_from_slice(&w.to_le_bytes());
@@ -425,21 +425,21 @@ fn words_hex(ws: &[i32]) -> String {
     to_hex(&b)
 }
 
-fn items_str(items: &[Item]) -> String {
+pub fn items_str(items: &[Item]) -> String {
     if items.is_empty() {
         return "_".to_string();
     }
     items.iter().map(|it| format!("{}.{}.{}", it.type_id, it.id, words_hex(&it.data))).collect::<Vec<_>>().join(",")
 }
 
-fn datas_str(datas: &[Vec<u8>]) -> String {
+pub fn datas_str(datas: &[Vec<u8>]) -> String {
     if datas.is_empty() {
         return "_".to_string();
     }
     datas.iter().map(|d| to_hex(d)).collect::<Vec<_>>().join(",")
 }
 
-fn parse_items(s: &str) -> Option<Vec<Item>> {
+pub fn parse_items(s: &str) -> Option<Vec<Item>> {
     if s == "_" {
         return Some(vec![]);
     }
@@ -459,7 +459,7 @@ fn parse_items(s: &str) -> Option<Vec<Item>> {
         .collect()
 }
 
-fn parse_datas(s: &str) -> Option<Vec<Vec<u8>>> {
+pub fn parse_datas(s: &str) -> Option<Vec<Vec<u8>>> {
     if s == "_" {
         return Some(vec![]);
     }
@@ -467,7 +467,7 @@ fn parse_datas(s: &str) -> Option<Vec<Vec<u8>>> {
 }
 
 /// is the item list something a reader has to accept: type ids strictly ascending by group
-fn well_formed(items: &[Item]) -> bool {
+pub fn well_formed(items: &[Item]) -> bool {
     items.windows(2).all(|w| w[0].type_id <= w[1].type_id)
 }
 
@@ -772,7 +772,7 @@ impl Runner for R {
 // ------------------------------------------------------------------------------------------
 // generator
 
-fn rand_items(rng: &mut Rng, max_items: u64, max_words: u64) -> Vec<Item> {
+pub fn rand_items(rng: &mut Rng, max_items: u64, max_words: u64) -> Vec<Item> {
     let n = rng.below(max_items + 1);
     let ntypes = 1 + rng.below(4);
     let pool: Vec<u16> = (0..ntypes)
@@ -824,7 +824,7 @@ fn rand_block(rng: &mut Rng, max: u64) -> Vec<u8> {
     }
 }
 
-fn rand_datas(rng: &mut Rng, max_blocks: u64, max_len: u64) -> Vec<Vec<u8>> {
+pub fn rand_datas(rng: &mut Rng, max_blocks: u64, max_len: u64) -> Vec<Vec<u8>> {
     (0..rng.below(max_blocks + 1)).map(|_| rand_block(rng, max_len)).collect()
 }
 
